@@ -1,0 +1,17 @@
+//go:build !verif
+// +build !verif
+
+package raft
+
+import (
+	"github.com/marekgalovic/anndb/storage/wal"
+
+	etcdRaft "github.com/coreos/etcd/raft"
+	"github.com/coreos/etcd/raft/raftpb"
+)
+
+func verifHook(g *RaftGroup, point string, rd *etcdRaft.Ready, entry *raftpb.Entry, err error) {}
+
+func verifStart(id uint64, nodeIds []uint64, storage wal.WAL) {}
+
+func (this *RaftGroup) verifSnapshotC() chan uint64 { return nil }
